@@ -67,7 +67,7 @@ class StreamingDetector(ABC):
                     raise ValueError(
                         "Column-dimension of new data must match prior data."
                     )
-            ary = X.values
+            ary = X.to_numpy(copy=True)  # .values may be a live view of the caller's frame
         else:
             ary = copy.copy(X)
             ary = np.array(ary)
@@ -248,7 +248,7 @@ class BatchDetector(ABC):
                     raise ValueError(
                         "Columns of new data must match with columns of prior data."
                     )
-            ary = X.values
+            ary = X.to_numpy(copy=True)  # .values may be a live view of the caller's frame
         else:
             ary = copy.copy(X)
             ary = np.array(ary)
